@@ -102,6 +102,21 @@ def run(tier, seed):
             buf = ctx.new_buffer(64)
             buf.allocate(rnd.choice([8, 24]))
             xa = XA([3, 1, 4, 1, 5], _buffer=buf)
+            # the same at offsets that are not multiples of the item size (the CPU context's minimum alignment is 1: a packed allocation,
+            # an explicit offset)
+            buf.allocate(rnd.choice([1, 3, 5]))
+            for xu in (XA([3, 1, 4], _buffer=buf), XA([3, 9], _buffer=ctx.new_buffer(64), _offset=13)):
+                try:
+                    got = getattr(K, f"first_{nm}")(p=xu)
+                    pa = getattr(K, f"paddr_{nm}")(p=xu)
+                    basep = np.frombuffer(xu._buffer.buffer, dtype="int8").ctypes.data
+                    evals += 2
+                    distinct.add((cn, "xptr-unaligned", nm, xu._offset % dt.itemsize))
+                    if got != dt.type(3) or int(pa) != basep + xu._offset + XA._data_offset:
+                        bad("pointer-to-scalar:xobject-array:odd-offset", context=cn, dtype=nm, got=repr(got), offset=xu._offset, pointer_minus_base=int(pa) - basep,
+                            expected=xu._offset + XA._data_offset)
+                except Exception as e:  # noqa
+                    bad("pointer-to-scalar:xobject-array:odd-offset", context=cn, dtype=nm, problem=f"{type(e).__name__}: {e}")
             try:
                 got = getattr(K, f"first_{nm}")(p=xa)
                 pa = getattr(K, f"paddr_{nm}")(p=xa)
